@@ -314,6 +314,11 @@ EveryProducerReturns == <>(AllProducersDone)
 \* with the known scenarios excluded by the antecedent (used for the pinned original code)
 EveryProducerReturnsUnlessKnown == <>(AllProducersDone \/ KnownOversize \/ KnownLate)
 
+\* Refinement: the pipeline implements the FIFO abstraction that Durable.tla uses in its place (spec/Pipe.tla)
+AbsQueue == IF apiFailed THEN <<>> ELSE SubSeq(handed, Len(DeliveredSeq) + 1, Len(handed))
+AbsPipe == INSTANCE Pipe WITH pq <- AbsQueue, psent <- DeliveredSeq, pfailed <- apiFailed
+PipeRefinement == AbsPipe!PSpec
+
 \* reachability probes (expected to be VIOLATED when the known scenario exists in the code being modelled)
 NeverOversizeParked == ~oversizeParked
 NeverLatePut == ~latePut
